@@ -539,7 +539,9 @@ static void check_ray(const std::string &fam, const std::string &regime, uint64_
     const CV perp = endu - o - dist * d;
     const double ptol = 4. * pos_err + 4. * EPS * D.P;
     if (absmax3(perp) > ptol) viol("end-off-line", "end position is %.3g off the ray (tolerance %.3g), dist along ray %.17g", absmax3(perp), ptol, dist);
-    if (nudge < -(ptol + 8. * EPS * S * (k + 1)) || nudge > T.nudge_allow + ptol + 8. * EPS * S * (k + 1))
+    // a wall crossing parameter is uncertain by delta: a step of that size can be taken (and deposited) in either direction,
+    // e.g. the AMR grid deposits the absolute value of a round-off step backwards
+    if (nudge < -(ptol + tolc) || nudge > T.nudge_allow + ptol + tolc)
       viol("path-sum", "sum of deposited paths %.17g but straight distance travelled %.17g (difference %.3g)", S, dist, nudge);
     for (int i = 0; i < 3; ++i)
       if (obs.end[i] < D.lo[i] - ptol || obs.end[i] > D.hi[i] + ptol)
